@@ -23,6 +23,7 @@ func checkC17(c *Ctx) {
 	c.checkSignatureGate()
 	c.checkElection()
 	c.checkPartition()
+	c.checkRehashRebuilds()
 	c.checkVoteRepliesDistinct()
 	c.checkActiveNodesExact()
 }
